@@ -157,10 +157,14 @@ const hangProbe = 45 * time.Second
 func stuckForGood(dump string) bool {
 	relevant, blocked := 0, 0
 	for _, g := range strings.Split(dump, "\n\n") {
-		if !strings.Contains(g, "B1NARY-GR0UP/originium") && !strings.Contains(g, "checks/dbsm.") {
+		if strings.Contains(g, "startWatchdog") {
 			continue
 		}
-		if strings.Contains(g, "startWatchdog") {
+		if !strings.Contains(g, "B1NARY-GR0UP/originium") && !strings.Contains(g, "checks/dbsm.") {
+			// a library goroutine the engine may be waiting for (the s2 writer's workers)
+			if h := strings.TrimLeft(g, "\n"); strings.HasPrefix(h, "goroutine ") && (strings.Contains(strings.SplitN(h, "\n", 2)[0], "[runnable") || strings.Contains(strings.SplitN(h, "\n", 2)[0], "[running") || strings.Contains(strings.SplitN(h, "\n", 2)[0], "[syscall")) {
+				return false
+			}
 			continue
 		}
 		nl := strings.IndexByte(g, '\n')
